@@ -95,6 +95,22 @@ def prior_activity(n):
     return keep
 
 
+def initial_method_probe():
+    """earlier work in the process: another simulator on which an initial method was registered (never initialised).
+    Returns (simulator, object); object.calls must stay 0 whatever other simulators do."""
+    from pydsol.core.simulator import DEVSSimulatorFloat
+
+    class Probe:
+        calls = 0
+
+        def hit(self, who=None):
+            Probe.calls += 1
+    sim = DEVSSimulatorFloat("c07-earlier-simulator")
+    obj = Probe()
+    sim.add_initial_method(obj, "hit", who="earlier")
+    return sim, Probe
+
+
 def _tval(x):
     """numeric value of an encoded time (0.0 and -0.0 are the same time)"""
     return float.fromhex(x) if isinstance(x, str) else (float.fromhex(x[0]) if isinstance(x, list) else x)
